@@ -220,7 +220,7 @@ def insn_clauses():
             else:
                 body = (f'({{ let mid = {mid}; wrote(mid, {W1}, {blk}.xops(encoding, mid.len)) && '
                         f'{W1}.len == mid.len + {blk}.xsize(encoding) }})')
-            out.append(f'[C14:insn-{name}] res is Ok ==> (*self matches CallFrameInstruction::{pat} ==> (({g}) ==> {body}))')
+            out.append(f'[C14:insn-{name}][C12:cfi-insn-serialise] res is Ok ==> (*self matches CallFrameInstruction::{pat} ==> (({g}) ==> {body}))')
         if fg is not None:
             out.append(f'[C14:insn-inexact-{vname}] *self matches CallFrameInstruction::{pat} ==> ((({_prefactor_guard(rows)}) '
                        f'&& !expressible(offset as int, {DAF})) ==> res == Err::<(), Error>(Error::InvalidFrameDataOffset(offset)))')
